@@ -98,9 +98,9 @@ def stmts_MuxHandleOption : List String := [
 
 def conds_Mux_ServeHTTP : List String := [
    "func (*Mux) ServeHTTP(w http.ResponseWriter, r *http.Request)",
-   "if r.ProtoMajor == 2 && strings.HasPrefix( r.Header.Get(\"Content-Type\"), \"application/grpc\", )",
-   "return",
    "if strings.HasPrefix( r.Header.Get(\"Content-Type\"), \"application/grpc-web\", )",
+   "return",
+   "if r.ProtoMajor == 2 && strings.HasPrefix( r.Header.Get(\"Content-Type\"), \"application/grpc\", )",
    "return",
    "if !strings.HasPrefix(r.URL.Path, \"/\")",
    "if err := m.serveHTTP(w, r); err != nil"
@@ -108,16 +108,16 @@ def conds_Mux_ServeHTTP : List String := [
 
 def stmts_Mux_ServeHTTP : List String := [
    "{",
-   "if r.ProtoMajor == 2 && strings.HasPrefix(",
-   "r.Header.Get(\"Content-Type\"), \"application/grpc\",",
-   ") {",
-   "m.serveGRPC(w, r)",
-   "return",
-   "}",
    "if strings.HasPrefix(",
    "r.Header.Get(\"Content-Type\"), \"application/grpc-web\",",
    ") {",
    "m.serveGRPCWeb(w, r)",
+   "return",
+   "}",
+   "if r.ProtoMajor == 2 && strings.HasPrefix(",
+   "r.Header.Get(\"Content-Type\"), \"application/grpc\",",
+   ") {",
+   "m.serveGRPC(w, r)",
    "return",
    "}",
    "if !strings.HasPrefix(r.URL.Path, \"/\") {",
